@@ -19,6 +19,9 @@
 typedef List<Tracked> TList;
 typedef Array<Tracked> TArray;
 typedef PoolList<NoCopy> TPool;
+// serials are logged through ser(): anything that is not a serial handed out in this execution (garbage read through a
+// stale pointer) becomes -9 so that the trace stays within TLC's 32-bit integers
+static long ser(long s) { return s > 0 && s < trk_next ? s : -9; }
 enum { K_LIST = 0, K_ARRAY = 1, K_POOL = 2 };
 static const char* kindName[3] = {"list", "array", "poollist"};
 
@@ -42,7 +45,7 @@ static void createVar(int i, int kind, long cap)
   else if(kind == K_ARRAY) V[i].a = cap > 0 ? new TArray((usize)cap) : new TArray;
   else V[i].p = new TPool;
 }
-void drv_init(int, char**) { V[1].l = V[2].l = 0; V[1].a = V[2].a = 0; V[1].p = V[2].p = 0; trk_reset_registry(); }
+void drv_init(int, char**) { g_op_timeout = 8; V[1].l = V[2].l = 0; V[1].a = V[2].a = 0; V[1].p = V[2].p = 0; trk_reset_registry(); }
 void drv_fini() { destroyVar(1); destroyVar(2); nkept = 0; }
 void drv_reset()
 {
@@ -87,8 +90,8 @@ static void projectVar(int i)
     for(TList::Iterator it = V[i].l->begin(), end = V[i].l->end(); it != end && cnt < bound; ++it, ++cnt)
     {
       const Tracked& t = *it;
-      fprintf(g_out, cnt ? ",[%d,%ld,%d]" : "[%d,%ld,%d]", t.value, t.serial, addr_id(&t));
-      if(nlive < 2 * PROJ_MAX) liveSerial[nlive++] = t.serial;
+      fprintf(g_out, cnt ? ",[%d,%ld,%d]" : "[%d,%ld,%d]", t.value, ser(t.serial), addr_id(&t));
+      if(nlive < 2 * PROJ_MAX) liveSerial[nlive++] = ser(t.serial);
     }
   }
   else if(V[i].kind == K_ARRAY)
@@ -96,8 +99,8 @@ static void projectVar(int i)
     for(TArray::Iterator it = V[i].a->begin(), end = V[i].a->end(); it != end && cnt < bound; ++it, ++cnt)
     {
       const Tracked& t = *it;
-      fprintf(g_out, cnt ? ",[%d,%ld,%d]" : "[%d,%ld,%d]", t.value, t.serial, addr_id(&t));
-      if(nlive < 2 * PROJ_MAX) liveSerial[nlive++] = t.serial;
+      fprintf(g_out, cnt ? ",[%d,%ld,%d]" : "[%d,%ld,%d]", t.value, ser(t.serial), addr_id(&t));
+      if(nlive < 2 * PROJ_MAX) liveSerial[nlive++] = ser(t.serial);
     }
   }
   else
@@ -105,8 +108,8 @@ static void projectVar(int i)
     for(TPool::Iterator it = V[i].p->begin(), end = V[i].p->end(); it != end && cnt < bound; ++it, ++cnt)
     {
       const NoCopy& t = *it;
-      fprintf(g_out, cnt ? ",[%d,%ld,%d]" : "[%d,%ld,%d]", t.value, t.serial, addr_id(&t));
-      if(nlive < 2 * PROJ_MAX) liveSerial[nlive++] = t.serial;
+      fprintf(g_out, cnt ? ",[%d,%ld,%d]" : "[%d,%ld,%d]", t.value, ser(t.serial), addr_id(&t));
+      if(nlive < 2 * PROJ_MAX) liveSerial[nlive++] = ser(t.serial);
     }
   }
   fputc(']', g_out);
@@ -118,17 +121,17 @@ static void backwardVar(int i)
   if(V[i].kind == K_LIST)
   {
     TList::Iterator it = V[i].l->end(), begin = V[i].l->begin();
-    while(it != begin && cnt < bound) { --it; fprintf(g_out, cnt ? ",%ld" : "%ld", (*it).serial); ++cnt; }
+    while(it != begin && cnt < bound) { --it; fprintf(g_out, cnt ? ",%ld" : "%ld", ser((*it).serial)); ++cnt; }
   }
   else if(V[i].kind == K_ARRAY)
   {
     TArray::Iterator it = V[i].a->end(), begin = V[i].a->begin();
-    while(it != begin && cnt < bound) { --it; fprintf(g_out, cnt ? ",%ld" : "%ld", (*it).serial); ++cnt; }
+    while(it != begin && cnt < bound) { --it; fprintf(g_out, cnt ? ",%ld" : "%ld", ser((*it).serial)); ++cnt; }
   }
   else
   {
     TPool::Iterator it = V[i].p->end(), begin = V[i].p->begin();
-    while(it != begin && cnt < bound) { --it; fprintf(g_out, cnt ? ",%ld" : "%ld", (*it).serial); ++cnt; }
+    while(it != begin && cnt < bound) { --it; fprintf(g_out, cnt ? ",%ld" : "%ld", ser((*it).serial)); ++cnt; }
   }
   fputc(']', g_out);
 }
@@ -156,8 +159,8 @@ static void observe(const char* op, int i, long v, long p, const char* kd, long 
     for(int x = 0; x < nlive; ++x) if(liveSerial[x] == kept[k].serial) { alive = 1; break; }
     if(!alive) continue;
     long now; const void* a;
-    if(kept[k].kind == K_LIST) { const Tracked& t = *kept[k].li; now = t.serial; a = &t; }
-    else { const NoCopy& t = *kept[k].pi; now = t.serial; a = &t; }
+    if(kept[k].kind == K_LIST) { const Tracked& t = *kept[k].li; now = ser(t.serial); a = &t; }
+    else { const NoCopy& t = *kept[k].pi; now = ser(t.serial); a = &t; }
     fprintf(g_out, first ? "[%ld,%ld,%d]" : ",[%ld,%ld,%d]", kept[k].serial, now, a == kept[k].addr ? 1 : 0);
     first = 0;
     kept[w++] = kept[k];
@@ -202,20 +205,20 @@ void drv_apply(const char* op)
 
   if(!strcmp(op, "append"))
   {
-    if(K == K_LIST) { Tracked& t = x.l->append(Tracked((int)v)); r = t.serial; TList::Iterator it = x.l->end(); --it; keepList(*x.l, t, it); }
-    else if(K == K_ARRAY) { Tracked& t = x.a->append(Tracked((int)v)); r = t.serial; }
-    else { NoCopy& t = x.p->append(); t.value = (int)v; r = t.serial; TPool::Iterator it = x.p->end(); --it; keepPool(t, it); }
+    if(K == K_LIST) { Tracked& t = x.l->append(Tracked((int)v)); r = ser(t.serial); TList::Iterator it = x.l->end(); --it; keepList(*x.l, t, it); }
+    else if(K == K_ARRAY) { Tracked& t = x.a->append(Tracked((int)v)); r = ser(t.serial); }
+    else { NoCopy& t = x.p->append(); t.value = (int)v; r = ser(t.serial); TPool::Iterator it = x.p->end(); --it; keepPool(t, it); }
   }
   else if(!strcmp(op, "prepend"))
   {
     if(K != K_LIST) NOP();
-    Tracked& t = x.l->prepend(Tracked((int)v)); r = t.serial; keepList(*x.l, t, x.l->begin());
+    Tracked& t = x.l->prepend(Tracked((int)v)); r = ser(t.serial); keepList(*x.l, t, x.l->begin());
   }
   else if(!strcmp(op, "insert"))
   {
     if(K != K_LIST || p < 0 || p > n) NOP();
     TList::Iterator it = x.l->insert(listAt(*x.l, p), Tracked((int)v));
-    r = it == x.l->end() ? -1 : (*it).serial;
+    r = it == x.l->end() ? -1 : ser((*it).serial);
     if(it != x.l->end()) keepList(*x.l, *it, it);
   }
   else if(!strcmp(op, "load"))                  // macro: p calls of append() with the decimal digits of v as values
@@ -252,14 +255,14 @@ void drv_apply(const char* op)
   {
     if(!same || K != K_LIST || p < 0 || p > n) NOP();
     TList::Iterator it = x.l->insert(listAt(*x.l, p), *y.l);
-    r = it == x.l->end() ? -1 : (*it).serial;
+    r = it == x.l->end() ? -1 : ser((*it).serial);
   }
   else if(!strcmp(op, "rmat"))
   {
     if(p < 0 || p >= n) NOP();
-    if(K == K_LIST) { TList::Iterator it = x.l->remove(listAt(*x.l, p)); r = it == x.l->end() ? -1 : (*it).serial; }
-    else if(K == K_ARRAY) { TArray::Iterator it = x.a->remove(arrayAt(*x.a, p)); r = it == x.a->end() ? -1 : (*it).serial; }
-    else { TPool::Iterator it = x.p->remove(poolAt(*x.p, p)); r = it == x.p->end() ? -1 : (*it).serial; }
+    if(K == K_LIST) { TList::Iterator it = x.l->remove(listAt(*x.l, p)); r = it == x.l->end() ? -1 : ser((*it).serial); }
+    else if(K == K_ARRAY) { TArray::Iterator it = x.a->remove(arrayAt(*x.a, p)); r = it == x.a->end() ? -1 : ser((*it).serial); }
+    else { TPool::Iterator it = x.p->remove(poolAt(*x.p, p)); r = it == x.p->end() ? -1 : ser((*it).serial); }
   }
   else if(!strcmp(op, "rmidx"))
   {
@@ -279,16 +282,16 @@ void drv_apply(const char* op)
   else if(!strcmp(op, "rmfront"))
   {
     if(n == 0) NOP();
-    if(K == K_LIST) { TList::Iterator it = x.l->removeFront(); r = it == x.l->end() ? -1 : (*it).serial; }
-    else if(K == K_ARRAY) { TArray::Iterator it = x.a->removeFront(); r = it == x.a->end() ? -1 : (*it).serial; }
-    else { TPool::Iterator it = x.p->removeFront(); r = it == x.p->end() ? -1 : (*it).serial; }
+    if(K == K_LIST) { TList::Iterator it = x.l->removeFront(); r = it == x.l->end() ? -1 : ser((*it).serial); }
+    else if(K == K_ARRAY) { TArray::Iterator it = x.a->removeFront(); r = it == x.a->end() ? -1 : ser((*it).serial); }
+    else { TPool::Iterator it = x.p->removeFront(); r = it == x.p->end() ? -1 : ser((*it).serial); }
   }
   else if(!strcmp(op, "rmback"))
   {
     if(n == 0) NOP();
-    if(K == K_LIST) { TList::Iterator it = x.l->removeBack(); r = it == x.l->end() ? -1 : (*it).serial; }
-    else if(K == K_ARRAY) { TArray::Iterator it = x.a->removeBack(); r = it == x.a->end() ? -1 : (*it).serial; }
-    else { TPool::Iterator it = x.p->removeBack(); r = it == x.p->end() ? -1 : (*it).serial; }
+    if(K == K_LIST) { TList::Iterator it = x.l->removeBack(); r = it == x.l->end() ? -1 : ser((*it).serial); }
+    else if(K == K_ARRAY) { TArray::Iterator it = x.a->removeBack(); r = it == x.a->end() ? -1 : ser((*it).serial); }
+    else { TPool::Iterator it = x.p->removeBack(); r = it == x.p->end() ? -1 : ser((*it).serial); }
   }
   else if(!strcmp(op, "clear"))
   {
@@ -333,20 +336,20 @@ void drv_apply(const char* op)
   else if(!strcmp(op, "find"))
   {
     if(K == K_POOL) NOP();
-    if(K == K_LIST) { TList::Iterator it = x.l->find(Tracked((int)v)); r = it == x.l->end() ? -1 : (*it).serial; }
-    else { TArray::Iterator it = x.a->find(Tracked((int)v)); r = it == x.a->end() ? -1 : (*it).serial; }
+    if(K == K_LIST) { TList::Iterator it = x.l->find(Tracked((int)v)); r = it == x.l->end() ? -1 : ser((*it).serial); }
+    else { TArray::Iterator it = x.a->find(Tracked((int)v)); r = it == x.a->end() ? -1 : ser((*it).serial); }
   }
   else if(!strcmp(op, "front"))
   {
     if(K == K_POOL || n == 0) NOP();           // PoolList::front()/back() do not compile when instantiated
-    if(K == K_LIST) { r = x.l->front().serial; if(((const TList*)x.l)->front().serial != r) r = -3; }
-    else { r = x.a->front().serial; if(((const TArray*)x.a)->front().serial != r) r = -3; }
+    if(K == K_LIST) { r = ser(x.l->front().serial); if(ser(((const TList*)x.l)->front().serial) != r) r = -3; }
+    else { r = ser(x.a->front().serial); if(ser(((const TArray*)x.a)->front().serial) != r) r = -3; }
   }
   else if(!strcmp(op, "back"))
   {
     if(K == K_POOL || n == 0) NOP();
-    if(K == K_LIST) { r = x.l->back().serial; if(((const TList*)x.l)->back().serial != r) r = -3; }
-    else { r = x.a->back().serial; if(((const TArray*)x.a)->back().serial != r) r = -3; }
+    if(K == K_LIST) { r = ser(x.l->back().serial); if(ser(((const TList*)x.l)->back().serial) != r) r = -3; }
+    else { r = ser(x.a->back().serial); if(ser(((const TArray*)x.a)->back().serial) != r) r = -3; }
   }
   else if(!strcmp(op, "eq"))
   {
@@ -374,17 +377,23 @@ void drv_apply(const char* op)
     if(K != K_LIST) NOP();
     x.l->prepend(*x.l);
   }
+  else if(!strcmp(op, "insertself"))
+  {
+    if(K != K_LIST || p < 0 || p > n) NOP();
+    TList::Iterator it = x.l->insert(listAt(*x.l, p), *x.l);
+    r = it == x.l->end() ? -1 : ser((*it).serial);
+  }
   else if(!strcmp(op, "appendown"))
   {
     if(K == K_POOL || p < 0 || p >= n) NOP();
-    if(K == K_LIST) { Tracked& t = x.l->append(*listAt(*x.l, p)); r = t.serial; }
-    else { Tracked& t = x.a->append((*x.a)[p]); r = t.serial; }
+    if(K == K_LIST) { Tracked& t = x.l->append(*listAt(*x.l, p)); r = ser(t.serial); }
+    else { Tracked& t = x.a->append((*x.a)[p]); r = ser(t.serial); }
   }
   else if(!strcmp(op, "insertown"))
   {
     if(K != K_LIST || p < 0 || p > n || v < 0 || v >= n) NOP();
     TList::Iterator it = x.l->insert(listAt(*x.l, p), *listAt(*x.l, v));
-    r = it == x.l->end() ? -1 : (*it).serial;
+    r = it == x.l->end() ? -1 : ser((*it).serial);
   }
   else if(!strcmp(op, "resizeown"))
   {
